@@ -252,12 +252,16 @@ def data_token(b):
 
 # ------------------------------------------------------------------------------ C01 / C12: writers
 
-def lib_compress(work, src, cfg_tok, hash_len, compression, level, buffered, md, frag):
-    """The library writer (create_archive) through the harness helper; returns archive bytes."""
+def lib_compress(work, src, cfg_tok, hash_len, compression, level, buffered, md, frag, before=()):
+    """The library writer (create_archive) through the harness helper; returns archive bytes.
+    `before`: jobs (src, cfg, hash_len, compression, level) the same process carries out first."""
     inp = work.write(src, ".src")
     out = work.fresh(".lib.cba")
     mdtok = ",".join("%s:%s" % (k.encode().hex() or "-", v.encode().hex() or "-") for k, v in (md or [])) or "-"
-    args = [os.path.join(core.TARGET, "debug", "l1"), "lib-compress", inp, out, cfg_tok, str(hash_len),
+    args = [os.path.join(core.TARGET, "debug", "l1"), "lib-compress"]
+    for (bsrc, bcfg, bhl, bcomp, blevel) in before:
+        args += [work.write(bsrc, ".src"), work.fresh(".lib0.cba"), bcfg, str(bhl), bcomp, str(blevel if blevel is not None else 6), "2", "-", "0"]
+    args += [inp, out, cfg_tok, str(hash_len),
             compression, str(level if level is not None else 6), str(buffered or 4), mdtok, str(frag)]
     p = subprocess.run(args, stdout=subprocess.PIPE, stderr=subprocess.PIPE, env=core.env_offline(), timeout=300)
     if p.returncode != 0:
@@ -589,9 +593,62 @@ def c12_determinism(seed, tier):
                     continue
                 archives.append(read_file(out))
                 os.unlink(out)
+            # other ways the same bytes can be delivered: a named pipe given with -i, and -i /dev/stdin fed by a pipe
+            for how in ("fifo", "devstdin"):
+                out = W.fresh(".cba")
+                args = ["compress"] + cfg_args + ["--hash-length", str(hash_len), "--compression", compression, "--buffered-chunks", "4"]
+                if level is not None:
+                    args += ["--compression-level", str(level)]
+                e = dict(os.environ, RUST_BACKTRACE="0")
+                try:
+                    if how == "fifo":
+                        fifo = W.fresh(".fifo")
+                        os.mkfifo(fifo)
+                        pr = subprocess.Popen([bita()] + args + ["-i", fifo, out], stdout=subprocess.PIPE, stderr=subprocess.PIPE,
+                                              stdin=subprocess.DEVNULL, env=e)
+
+                        def feed(path=fifo, data=src):
+                            try:
+                                with open(path, "wb") as fw:
+                                    for o in range(0, len(data), 4099):
+                                        fw.write(data[o:o + 4099])
+                                        fw.flush()
+                            except OSError:
+                                pass
+                        import threading
+                        th = threading.Thread(target=feed, daemon=True)
+                        th.start()
+                        so_, se_ = pr.communicate(timeout=300)
+                        th.join(timeout=10)
+                        rc_ = pr.returncode
+                    else:
+                        p2 = subprocess.run([bita()] + args + ["-i", "/dev/stdin", out], input=src, stdout=subprocess.PIPE,
+                                            stderr=subprocess.PIPE, env=e, timeout=300)
+                        rc_ = p2.returncode
+                except subprocess.TimeoutExpired:
+                    pr.kill()
+                    R.fail("compress-hang", desc + " delivery=" + how)
+                    continue
+                R.stat("runs_delivery_" + how)
+                if rc_ != 0:
+                    R.fail("compress-%s" % classify(rc_), desc + " delivery=" + how)
+                    continue
+                archives.append(read_file(out))
+                os.unlink(out)
             lib, err = lib_compress(W, src, cfg_tok, hash_len, compression, level, 3, [], rng.choice([0, 1, 13, 65536]))
             if lib is not None:
                 archives.append(lib)
+            # the library writer with a history: the same archive made as the SECOND one of a process that first
+            # wrote an archive with another compression level / other parameters
+            if compression == "brotli" and i % 2 == 0:
+                other = 1 if (level or 6) > 6 else 11
+                lib2, err2 = lib_compress(W, src, cfg_tok, hash_len, compression, level, 3, [], 0,
+                                          before=[(rng.randbytes(5000) + bytes(3000), "F:1000", 8, "brotli", other)])
+                R.stat("library_archives_written_after_another_one")
+                if lib2 is not None:
+                    archives.append(lib2)
+                else:
+                    R.fail("compress-err", desc + " (second archive of a process) :: " + (err2 or "")[-150:])
             if len(set(archives)) > 1:
                 R.fail("archives-differ-between-runs", desc + " sizes=%r" % sorted(set(len(a) for a in archives)))
             R.stat("inputs")
